@@ -10,7 +10,7 @@ LEVEL = 'exploration'
 BUDGET = {'quick': 20, 'thorough': 240}
 STREAM_ORDER = ['ops', 'guards', 'mat', 'chart', 'cfg']
 RULE = (common.GEN + 'guard outcomes and chart shapes are biased towards >= 2 transitions firing at once (same source under compound / '
-        'orthogonal parents and on the root, sibling regions with targets inside / outside the region); the exception class of every '
+        'orthogonal parents and on the root, sibling regions with targets inside / outside the region; in half of the runs some guard texts contain braces, which end up in the error message); the exception class of every '
         'step is compared with reference step 6, and after an error nothing may have changed; non-trivial = a step in which the '
         'reference selects >= 2 transitions; distinct = distinct (chart, configuration, event, selected set)')
 COMPONENTS = {'real': common.REAL, 'stub': common.STUB}
@@ -23,7 +23,7 @@ TECHNIQUE = 'deterministic simulation: seeded chart+history+guard-outcome search
 
 def run(ch, tier):
     res = Result()
-    cfg = swarm(ch.s('cfg'), Cfg(pair_bias=5, bump=True), tier)
+    cfg = swarm(ch.s('cfg'), Cfg(pair_bias=5, bump=True, brace=ch.s('cfg').flag(1, 2)), tier)
     sp = gen_spec(ch.s('chart'), cfg)
     sim = Sim(sp, statechart=materialise(sp, ch, res))
     cfp = fp(sp.fingerprint())
